@@ -17,6 +17,9 @@ pub fn hash160(data: &[u8]) -> [u8; 20] {
     out
 }
 
+/// Number of transparent harness keys.
+pub const N_TKEYS: usize = 16;
+
 pub struct TKey {
     pub sk: secp256k1::SecretKey,
     pub pk: secp256k1::PublicKey,
@@ -81,7 +84,9 @@ pub fn keys() -> &'static Keys {
     static K: OnceLock<Keys> = OnceLock::new();
     K.get_or_init(|| {
         let secp = secp256k1::Secp256k1::new();
-        let t = (0u8..7)
+        // keys 0..=5: owners of P2PKH coins; 6: always in the signing set, owns nothing by itself;
+        // 0..=15: members of multisig redeem scripts
+        let t = (0u8..N_TKEYS as u8)
             .map(|i| {
                 let mut b = [0x11u8.wrapping_mul(i + 1); 32];
                 b[0] = i + 1;
